@@ -20,6 +20,13 @@ CLAIMED = {
          "list: loop invariant elems(nbs) = NB(prefix); all 3x3 parameter combinations, filters, link classes (open class hierarchy) and positions of v "
          "are symbolic; exception outcomes have unchanged state. The FORWARD/BACKWARD count symmetry is proved pointwise per link (SMT) and lifted by a "
          "Lean-checked counting lemma."),
+ "C05": ("proof", "6/C05", "Cache coherence I5 (every memo entry holds NB of the current heap) is an invariant independent of the caching flag: "
+         "(a) neighbors() is verified to return NB on the cached and on the computed path and to insert only a coherent, separate list; (b) for each of "
+         "the 20 public mutators a footprint lemma over its contract shows that every vertex that keeps a memo entry keeps its ordered link list and "
+         "every link of it keeps its ends (NB is a fold over exactly that footprint: Lean nb_congr); the mutators' cache effects are under-specified "
+         "('entries only disappear, these vertices are cleared') so over-invalidation never alarms; (c) no contract requires a statistics entry, so "
+         "objects un-pickled into a fresh interpreter are usable (a KeyError path would be an exit without contract outcome). Traversals/searches "
+         "inherit transparency from neighbors()'s contract. Assumed: pickle reconstructs an isomorphic copy including its memo."),
  "C07": ("proof", "6/C07", "Each traversal (generator and list form) is proved to refine the canonical machine of the statement, written as a recurrence "
          "whose defining equations are unfolded by the loop invariants: BFS A(k+1) = A(k) ++ new-in-universe-neighbours-of A(k)[k] (FIFO, mark on "
          "enqueue), explicit-stack DFS (pop last, mark on pop, push all neighbours in order), recursive pre-order. The listing is therefore a "
